@@ -6,6 +6,7 @@ import (
 	"fmt"
 	"go/constant"
 	"go/types"
+	"sort"
 	"strings"
 
 	"golang.org/x/tools/go/ssa"
@@ -76,9 +77,26 @@ func (e *Enc) specCtx(fc *fctx, st *State, guard string) *specCtx {
 				a, best = c, n
 			}
 		}
+		// name#k: the k-th variable of that name in source order, whether or not it is the most recent
+		if len(cands) > 1 {
+			sorted := append([]*ssa.Alloc{}, cands...)
+			sort.Slice(sorted, func(i, j int) bool { return sorted[i].Pos() < sorted[j].Pos() })
+			for k, c := range sorted {
+				if _, ok := st.seen[c]; ok {
+					e.bindLocal(sc, fmt.Sprintf("%s#%d", name, k), c, st, fc)
+				}
+			}
+		}
 		if a == nil {
 			continue
 		}
+		e.bindLocal(sc, name, a, st, fc)
+	}
+	return sc
+}
+
+func (e *Enc) bindLocal(sc *specCtx, name string, a *ssa.Alloc, st *State, fc *fctx) {
+	{
 		et := a.Type().(*types.Pointer).Elem()
 		if m, ok := st.mat[a]; ok {
 			if isStruct(et) && e.m.structOf(et) != nil {
@@ -98,7 +116,6 @@ func (e *Enc) specCtx(fc *fctx, st *State, guard string) *specCtx {
 			}
 		}
 	}
-	return sc
 }
 
 func (e *Enc) svOfTerm(t string, ty types.Type) SV { return SV{T: t, Ty: ty} }
@@ -395,7 +412,7 @@ func (sc *specCtx) val(x SExpr) SV {
 		case "-":
 			v := sc.val(n.X)
 			if sc.sortOf(v.Ty) == "F64" {
-				return SV{T: fmt.Sprintf("(fp.neg %s)", sc.mat(v)), Ty: v.Ty}
+				return SV{T: fmt.Sprintf("(fneg %s)", sc.mat(v)), Ty: v.Ty}
 			}
 			return SV{T: fmt.Sprintf("(- %s)", sc.mat(v)), Ty: v.Ty}
 		case "*":
@@ -522,7 +539,7 @@ func (sc *specCtx) bin(n *SBin) SV {
 		case "Str":
 			t = fmt.Sprintf("(seq %s %s)", x, y)
 		case "F64":
-			t = fmt.Sprintf("(fp.eq %s %s)", x, y)
+			t = fmt.Sprintf("(feq %s %s)", x, y)
 		default:
 			t = fmt.Sprintf("(= %s %s)", x, y)
 		}
@@ -535,7 +552,7 @@ func (sc *specCtx) bin(n *SBin) SV {
 		case "Int":
 			return SV{T: fmt.Sprintf("(%s %s %s)", n.Op, x, y), Ty: boolT}
 		case "F64":
-			op := map[string]string{"<": "fp.lt", "<=": "fp.leq", ">": "fp.gt", ">=": "fp.geq"}[n.Op]
+			op := map[string]string{"<": "flt", "<=": "fle", ">": "fgt", ">=": "fge"}[n.Op]
 			return SV{T: fmt.Sprintf("(%s %s %s)", op, x, y), Ty: boolT}
 		case "Str":
 			return SV{T: fmt.Sprintf("(%s (scmp %s %s) 0)", n.Op, x, y), Ty: boolT}
@@ -551,9 +568,9 @@ func (sc *specCtx) bin(n *SBin) SV {
 			}
 			return SV{T: fmt.Sprintf("(%s %s %s)", n.Op, x, y), Ty: a.Ty}
 		case "F64":
-			op := map[string]string{"+": "fp.add", "-": "fp.sub", "*": "fp.mul", "/": "fp.div"}[n.Op]
+			op := map[string]string{"+": "fadd", "-": "fsub", "*": "fmul", "/": "fdiv"}[n.Op]
 			if op != "" {
-				return SV{T: fmt.Sprintf("(%s RNE %s %s)", op, x, y), Ty: a.Ty}
+				return SV{T: fmt.Sprintf("(%s %s %s)", op, x, y), Ty: a.Ty}
 			}
 		case "Str":
 			if n.Op == "+" {
@@ -814,7 +831,7 @@ func (sc *specCtx) call(n *SCall) SV {
 		a, b := sc.unify(arg(0), arg(1))
 		return SV{T: fmt.Sprintf("(= %s %s)", sc.mat(a), sc.mat(b)), Ty: boolT}
 	case "isNaN":
-		return SV{T: fmt.Sprintf("(fp.isNaN %s)", sc.mat(arg(0))), Ty: boolT}
+		return SV{T: fmt.Sprintf("(fisnan %s)", sc.mat(arg(0))), Ty: boolT}
 	case "smt":
 		// smt("fname", T, args...) : raw SMT function application with result type T
 		name := n.Args[0].(*SStr).V
